@@ -26,7 +26,7 @@ pub static DEF: PropertyDef = PropertyDef {
         "current errors/warnings are not compared (the save format does not carry them and C02 does not list them; C13 owns them); no crash is injected while an unhandled error is outstanding (not a save point)",
         "saves are compared behaviourally, never textually",
     ],
-    runs_quick: 2500,
+    runs_quick: 8000,
     runs_thorough: 120000,
     exhaustive_note: "crash-restore injected at every distinct save point of each sampled history",
     generate,
